@@ -20,7 +20,8 @@ def cminx():
     """Import cminx from the tree under test and make sure that is really what was imported."""
     global _cminx
     if _cminx is None:
-        assert os.environ.get(GUARD) == "1", "interposition layer refuses to load outside a check"
+        if os.environ.get(GUARD) != "1":
+            raise RuntimeError("interposition layer refuses to load outside a check")
         src = os.path.join(repo_root(), "src")
         if sys.path[0] != src:
             sys.path.insert(0, src)
